@@ -769,7 +769,20 @@ def list_built_in_loop(x, y):
     return out, acc, len(acc)
 
 
-FUNCS = [sums_with_conditionals, nested_sum_loops, modular_sum_loop, list_built_in_loop, count_in_loop, filtered_generator_sum, none_use_caught, none_use_uncaught, nested_try, property_setter, try_except, nonlocal_counter, list_sort_methods, any_all_lists, isinstance_checks, enumerate_start, max_with_key, dict_views, while_else, string_format, accumulate_pattern, global_constant, dict_sorted_keys, set_sorted, sorting, int_trunc, dict_symbolic_keys, set_symbolic, symbolic_index, symbolic_range, while_symbolic, mixed_division, nested_conditions, object_state, list_of_lists_alias, string_branch, min_max_symbolic, tuple_keys, set_algebra, starred_unpack, set_compare, sorted_key_map, math_rounding, sequence_ordering, arith, true_div, floor_mod_pos, floor_mod_const, power, neg_abs, chained, short_circuit_values, ternary, if_chain, min_max, bool_int, list_build,
+def bitwise_ops(x, y):
+    a = (x + 64) % 32
+    b = (y + 64) % 32
+    return a ^ b, (a ^ b) == 0, (a ^ b) == (b ^ a), 12 ^ 10, 12 & 10, 12 | 10, (a ^ b) ^ b == a
+
+
+_KEYS_TABLE = {"first": int, "second": str}
+
+
+def module_level_display(x, y):
+    return sorted(_KEYS_TABLE), len(_KEYS_TABLE), "first" in _KEYS_TABLE
+
+
+FUNCS = [bitwise_ops, module_level_display, sums_with_conditionals, nested_sum_loops, modular_sum_loop, list_built_in_loop, count_in_loop, filtered_generator_sum, none_use_caught, none_use_uncaught, nested_try, property_setter, try_except, nonlocal_counter, list_sort_methods, any_all_lists, isinstance_checks, enumerate_start, max_with_key, dict_views, while_else, string_format, accumulate_pattern, global_constant, dict_sorted_keys, set_sorted, sorting, int_trunc, dict_symbolic_keys, set_symbolic, symbolic_index, symbolic_range, while_symbolic, mixed_division, nested_conditions, object_state, list_of_lists_alias, string_branch, min_max_symbolic, tuple_keys, set_algebra, starred_unpack, set_compare, sorted_key_map, math_rounding, sequence_ordering, arith, true_div, floor_mod_pos, floor_mod_const, power, neg_abs, chained, short_circuit_values, ternary, if_chain, min_max, bool_int, list_build,
          list_slices, list_pop_index, list_mutation_alias, nested_lists, tuple_unpack, swap_aug, for_range, for_enumerate_zip, while_loop, for_else,
          comprehension, dict_ops, dict_int_keys, dict_iteration_order, default_dict, set_ops, builtins_misc, is_none, closures, default_args, recursion,
          classes, math_funcs, early_return, string_keys, augmented_subscript, truthiness, equality, index_errors, key_errors, zero_division, asserts, raises]
